@@ -210,6 +210,13 @@ def read (c : Conn) (max : Nat) (q : Net) : Option (Conn × Bytes × Net) :=
     let (rx, plain) := c.rx.xor P.sxor chunk
     some ({ c with rx := rx }, plain, q')
 
+/-- the `Read` whose `conn.Read` returns the final `chunk` (n > 0) **together with an error** (which
+`io.Reader` permits): `cipher.StreamReader.Read` decrypts the n bytes and returns them along with
+the error — nothing is lost. Returns the state and the bytes delivered with the error. -/
+def readLast (c : Conn) (chunk : Bytes) : Conn × Bytes :=
+  let (rx, plain) := c.rx.xor P.sxor chunk
+  ({ c with rx := rx }, plain)
+
 /-- `obfs2Conn.Write(b)` after a successful handshake: one net write of the same length -/
 def write (c : Conn) (data : Bytes) : Conn × Bytes :=
   let (tx, wire) := c.tx.xor P.sxor data
